@@ -92,6 +92,33 @@ def _replay_pred_str(fn, n):
     return replay
 
 
+SPECIALS = ["\n", "\r", "\r\n", " ", "\t", "\x0b", "\x0c", "\x1c", "\x1d", "\x1e", "\x85", "\u2028", "\u2029", "\x00", "\n\n"]
+
+
+def _body_pred_special(fn, k, lead):
+    """valid amino-acid letters followed / preceded by a whitespace-like character: the classic blind spots of pattern
+    based rewrites ($ before a trailing newline, str.strip, str.isalpha ...).  CrossHair's regex model does not implement
+    Python's '$ matches before a trailing newline', so these inputs are decided through the witness replay."""
+    def body():
+        from pyrepseq import io
+        from vlib import sym
+        core = sym.sym_str("core", 1, among=hc.AMINO)
+        sym.register("special", "const", SPECIALS[k])
+        s = (SPECIALS[k] + "C" + core + "F") if lead else ("C" + core + "F" + SPECIALS[k])
+        got = getattr(io, fn)(s)
+        return (not bool(got)), f"{fn}({s!r}) returned {got}, expected False"
+    return body
+
+
+def _replay_pred_special(fn, k, lead):
+    def replay(inputs):
+        from pyrepseq import io
+        s = (SPECIALS[k] + "C" + inputs["core"] + "F") if lead else ("C" + inputs["core"] + "F" + SPECIALS[k])
+        got = getattr(io, fn)(s)
+        return got is False, f"{fn}({s!r}) = {got!r}, expected False"
+    return replay
+
+
 def _body_pred_obj(fn, kind):
     def body():
         from pyrepseq import io
@@ -353,6 +380,13 @@ def conditions(tier):
         for kind in VALUES:
             out.append(Condition(f"C18/{fn}/{kind}", _body_pred_obj(fn, kind), _replay_pred_obj(fn, kind), budget=60,
                                  bounds=f"{fn} on a value of kind {kind}"))
+        for k in range(len(SPECIALS)):
+            for lead in (False, True):
+                if lead and k > 3:
+                    continue
+                out.append(Condition(f"C18/{fn}/special/{k}/" + ("lead" if lead else "trail"), _body_pred_special(fn, k, lead),
+                                     _replay_pred_special(fn, k, lead), budget=60,
+                                     bounds=f"{fn} on C<letter>F with the character {SPECIALS[k]!r} " + ("prepended" if lead else "appended")))
     sets = {"all": STD, "beta": ["TRBV", "CDR3B", "TRBJ"], "mixed": ["CDR3A", "MHCA", "Epitope"], "one": ["TRAJ"], "mhcb": ["MHCB", "TRAV"]}
     for name, cols in sets.items():
         for mode in ("std", "nostd", "mapper", "df_old"):
